@@ -1,9 +1,9 @@
 """Runs every translator (coq/gen/*.v are regenerated from the snapshot of /repo)."""
-import gen_tables, gen_funcs, gen_consts
+import gen_tables, gen_funcs, gen_consts, gen_params
 
 
 def generate_all(snap):
-    out = {"tables": gen_tables.generate(snap), "prng": gen_funcs.gen_prng(snap), "blocking": gen_funcs.gen_blocking(snap), "consts": gen_consts.generate(snap), "popcount": gen_funcs.gen_popcount(snap)}
+    out = {"tables": gen_tables.generate(snap), "prng": gen_funcs.gen_prng(snap), "blocking": gen_funcs.gen_blocking(snap), "consts": gen_consts.generate(snap), "popcount": gen_funcs.gen_popcount(snap), "params": gen_params.generate(snap)}
     return out
 
 
